@@ -50,7 +50,7 @@ def ENCODED():
 
 def cases(tier, seed):
     return ["daily/fit", "daily/predict", "billing/fit", "billing/predict", "hourly/fit", "hourly/predict", "daily/persist", "billing/persist",
-            "daily/persistfit", "billing/persistfit", "hourly/persist"]
+            "daily/persistfit", "billing/persistfit", "hourly/persist", "hourly/realfit"]
 
 
 SIBLING = {"daily": "billing", "billing": "daily", "hourly": "daily"}
@@ -406,7 +406,46 @@ def replay_persistfit(inp):
     return bad, f"{fam}: earlier fit of the same object: {prior}; {ndq} inherited disqualification(s), poor fit={poor}: in memory {v1} {n1}; after to_json/from_json {v2} {n2}; expected {want}"
 
 
-REPLAY = {"fit": replay_fit, "predict": replay_predict, "persist": replay_persist, "persistfit": replay_persistfit}
+def replay_realfit(inp):
+    """a REAL hourly fit (sklearn shim restored by the harness, see hourlyref.enable_fit): the gate of the fitted object and of
+    the model read back from its stored form"""
+    import logging
+    logging.disable(logging.CRITICAL)
+    from opendsm.eemeter.models.hourly.data import HourlyBaselineData, HourlyReportingData
+    from . import hourlyref as H
+    H.enable_fit()
+    frame = H.baseline_frame(noise=inp["noise"], days=(200 if inp["short"] else 365))
+    data = HourlyBaselineData(frame, is_electricity_data=True)
+    m = hm.HourlyModel()
+    pr = []
+    try:
+        m.fit(data, ignore_disqualification=False)
+        refused = False
+    except DataSufficiencyError:
+        refused = True
+    if refused != bool(data.disqualification):
+        return True, f"fit refused={refused} for baseline disqualifications {[w.qualified_name for w in data.disqualification]}"
+    if refused:
+        m.fit(data, ignore_disqualification=True)
+    rep = HourlyReportingData(H.baseline_frame(noise=0.05, days=30, seed=5)[["temperature"]], is_electricity_data=True)
+    want_block = bool(m.disqualification)
+    names = [w.qualified_name for w in m.disqualification]
+    for who, model in (("fitted object", m), ("model read back from to_json()", hm.HourlyModel.from_json(m.to_json()))):
+        for ignore in (False, True):
+            try:
+                out = model.predict(rep, ignore_disqualification=ignore)
+                got = "predicts"
+            except DisqualifiedModelError:
+                got = "DisqualifiedModelError"
+            want = "DisqualifiedModelError" if (want_block and not ignore) else "predicts"
+            if got != want:
+                pr.append(f"{who}, ignore={ignore}: {got}, expected {want} (model disqualifications {names})")
+        if [w.qualified_name for w in model.disqualification] != names:
+            pr.append(f"{who}: disqualifications {[w.qualified_name for w in model.disqualification]} != {names}")
+    return bool(pr), "; ".join(pr[:3]) + f" [poor fit: {'eemeter.model_fit_metrics' in names}, inherited: {len(data.disqualification)}]"
+
+
+REPLAY = {"fit": replay_fit, "predict": replay_predict, "persist": replay_persist, "persistfit": replay_persistfit, "realfit": replay_realfit}
 
 
 # ----------------------------------------------------------------- symbolic runs
@@ -419,6 +458,8 @@ def run_case(case: Case, name: str):
         return run_predict(case, fam)
     if what == "persistfit":
         return run_persistfit(case, fam)
+    if what == "realfit":
+        return run_realfit(case)
     return run_persist(case, fam)
 
 
@@ -545,6 +586,27 @@ def run_persistfit(case, fam):
         case.prove(p, not bad, "a fitted model's gate verdict and disqualifications are the same after to_json/from_json (fit through the real _fit tail)",
                    replay=("persistfit", (lambda i: lambda mdl: i)(inp)))
     case.sample(dict(family=fam, scenarios=len(paths)))
+
+
+def run_realfit(case):
+    case.inputs = []
+
+    def run():
+        inp = dict(noise=F.choose("noise", [0.05, "spiky"]), short=F.choose("short", [False, True]))
+        return inp, replay_realfit(inp)
+
+    paths = case.explore(run)
+    for p in paths:
+        if p.outcome != "ret":
+            case.rep["harness_errors"].append(f"real hourly fit scenario raised {p.value!r}")
+            continue
+        inp, (bad, det) = p.value
+        label = "real hourly fit: refused exactly for a disqualified baseline; the fitted and the reloaded model are blocked exactly when disqualified (inherited or poor fit) and not overridden"
+        if not case.ground(not bad, label):
+            case.violation(label, "realfit", inp, det)
+        case.regime("real hourly fit with a poor-fit disqualification", "poor fit: True" in det)
+        case.regime("real hourly fit on a disqualified (short) baseline", "inherited: 0" not in det)
+    case.sample(dict(entry="HourlyModel.fit/predict/to_json/from_json (real)", fits=len(paths)))
 
 
 def run_persist(case, fam):
